@@ -76,7 +76,7 @@ CLASS_ERRNOS = {
     "rename": CORE_ERRNOS + ["EBUSY"],
     "unlink": CORE_ERRNOS + ["EBUSY"],
     "fdmeta": [],
-    "lock": [],
+    "lock": CORE_ERRNOS + ["ENOLCK"],
 }
 
 MUTATING_CLASSES = {"mkdir", "create", "chmod", "write", "rename", "unlink"}
@@ -842,6 +842,10 @@ class Simulation:
             op.outcome = "interrupt"
             self.crash_op = op
             raise SimInterrupt("interrupt at flock")
+        if kind == "errno" and op.name == "flock":
+            code = getattr(_errno, en)
+            op.outcome = en
+            raise OSError(code, os.strerror(code))
 
     # ------------------------------------------------------------------- logging
     def event_log(self):
